@@ -71,6 +71,7 @@ Definition sort_keys {A : Type} (l : list (bytes * A)) : list (bytes * A) := fol
 Section Std.
   Variable e : env.
   Variable Q : quoting.
+  Variable nn : bool.        (* NoNullSliceOrMap: nil slices / maps as [] / {} (encoding/json itself: false) *)
 
   Definition wrapq (quoted : bool) (b : bytes) : bytes := if quoted then [34%N] ++ b ++ [34%N] else b.
 
@@ -201,7 +202,7 @@ Section Std.
         | RSlice, VSlice o =>
             let el := match unfold e t with TSlice x => x | _ => t end in
             match o with
-            | None => SOk s_null
+            | None => SOk (if nn then [91%N; 93%N] else s_null)
             | Some l =>
                 if is_kind e el KUint8 && negb (ptr_implements e el MJson || ptr_implements e el MText) then
                   match (fix bs (l : list val) : option bytes :=
@@ -226,7 +227,7 @@ Section Std.
             | TMap kt et =>
                 if negb (std_key_ok kt) then SErr S_unsupported else
                 match o with
-                | None => SOk s_null
+                | None => SOk (if nn then [123%N; 125%N] else s_null)
                 | Some l =>
                     match (fix ks (l : list (val * val)) : sres + list (bytes * val) :=
                              match l with
